@@ -115,8 +115,8 @@ def check_pair(cx, chk):
                 # enum overrides of positioned rules have no own field; structs must be filled by range_until
                 chk.violation("C09.pair", "%s/%s position-not-measured" % (inst.name, tname),
                               "type %s has a `position` field but no range_until(entry, end) feeds it" % tname)
-    chk.floor("C09.pair", "range_until sites", n_range, 6)
-    chk.floor("C09.pair", "slice_until sites", n_slice, 12)
+    chk.floor("C09.pair", "range_until sites", n_range, 3)
+    chk.floor("C09.pair", "slice_until sites", n_slice, 6)
     chk.floor("C09.pair", "types with a position field", positioned, 6)
 
 
@@ -160,31 +160,36 @@ def check_rt(cx, chk):
             chk.ok("C09.rt", "slice_until", {"slice_until": mir.show(e)})
         else:
             chk.violation("C09.rt", "slice_until", "slice_until is not partial_string[..other.start_index - self.start_index]: %s" % (mir.show(e) if e else "?"), cx.site(b))
+    from .. import sem
+    from . import semspec
+    S = sem.Sem(cx, rt)
     for nm, want_args in (("ParseOk::map_with_state", 2), ("ParseOk::map", 1)):
-        b, e = ret(cx, rt, nm)
-        if b is None:
+        p = semspec.find_fn(rt, nm)
+        if p is None:
             chk.anchor_missing("C09.rt", nm)
             continue
-        good = False
-        if e and e[0] == "agg" and e[1].endswith("ParseOk"):
-            d = dict(e[3])
-            res, st = d.get("result"), d.get("state")
-            if st == ("field", me, "state") and res is not None and res[0] in ("call", "icall"):
-                args = res[2] if res[0] == "call" else res[2]
-                # Fn::call(&f, (self.result, &self.state))
-                flat = []
-                for a in args:
-                    if a[0] == "tuple":
-                        flat.extend(a[1])
-                    else:
-                        flat.append(a)
-                want = [("param", 2), ("field", me, "result")] + ([("field", me, "state")] if want_args == 2 else [])
-                if flat == want:
-                    good = True
-        if good:
-            chk.ok("C09.rt", nm, {nm: mir.show(e)})
+        b = cx.body(rt, p)
+        try:
+            sm = S.summarize(p)
+        except sem.SemLimit as ex:
+            chk.violation("C09.rt", nm, "%s could not be summarised: %s" % (nm, ex), cx.site(b))
+            continue
+        probs = []
+        for leaf in sm.leaves:
+            if leaf.kind != "return":
+                probs.append("a path ends in a %s" % leaf.kind)
+                continue
+            fs = semspec.fields(leaf.ret, ["result", "state"])
+            if fs["state"] != mir.mk("field", me, "state"):
+                probs.append("state becomes %s" % mir.show(fs["state"])[:100])
+            res = fs["result"]
+            want = (mir.mk("field", me, "result"),) + ((mir.mk("field", me, "state"),) if want_args == 2 else ())
+            if not (res[0] == "icall" and res[1] == ot and tuple(res[2]) == want):
+                probs.append("result becomes %s" % mir.show(res)[:100])
+        if not probs:
+            chk.ok("C09.rt", nm, {nm: "ParseOk{result: f(self.result%s), state: self.state}" % (", &self.state" if want_args == 2 else "")})
         else:
-            chk.violation("C09.rt", nm, "%s does not keep the state and map only the result: %s" % (nm, mir.show(e) if e else "?"), cx.site(b))
+            chk.violation("C09.rt", nm, "%s does not keep the state and map only the result: %s" % (nm, sorted(set(probs))), cx.site(b))
 
 
 def check_impl(cx, chk):
